@@ -362,8 +362,9 @@ def step(state, event):
         rec.append(('method', methodname, copy.deepcopy(objectname), copy.deepcopy(Params), copy.deepcopy(params)))
         return orig_m(methodname, objectname, Params, **params)
     M._imethodcall, M._methodcall = rec_i, rec_m
+    kw_m = _args_for(state.ctx_m, args)
     try:
-        out_m = _outcome(lambda: _call(M, op, _args_for(state.ctx_m, args)))
+        out_m = _outcome(lambda: _call(M, op, kw_m))
     finally:
         M._imethodcall, M._methodcall = orig_i, orig_m
     # --- X side
@@ -372,8 +373,20 @@ def step(state, event):
                              if op.startswith('Iter') else None)
     M.use_pull_operations  # noqa  (M keeps its own default)
     ctx_x_before = state.ctx_x
-    out_x = _outcome(lambda: _call(X, op, _args_for(state.ctx_x, args)))
+    kw_x = _args_for(state.ctx_x, args)
+    out_x = _outcome(lambda: _call(X, op, kw_x))
     reached = bool(fac.log)
+    # --- (0) the caller's argument objects are his own: an operation that changes them changes what
+    # the caller supplies to his next operation (on either path)
+    for side, kw, ctx in (('http', kw_x, ctx_x_before), ('direct', kw_m, state.ctx_m)):
+        fresh = _args_for(ctx, args)
+        for k in sorted(kw):
+            if args[k] == ['session']:
+                continue
+            d = diff(_dump_result(fresh[k]), _dump_result(kw[k]))
+            if d:
+                return 'argument-modified', '%s:%s:%s:%s' % (op_family(op), side, k, path_class(d[0])), \
+                    d[1], d[2], reached
     # remember sessions
     for out, attr in ((out_x, 'ctx_x'), (out_m, 'ctx_m')):
         if out[0] == 'ok' and hasattr(out[1], 'context') and op.startswith('Open'):
